@@ -10,6 +10,7 @@ import (
 	_ "verif/internal/props/c15"
 	_ "verif/internal/props/c16"
 	_ "verif/internal/props/c20"
+	_ "verif/internal/props/c09"
 	_ "verif/internal/props/c18"
 	_ "verif/internal/props/c19"
 	_ "verif/internal/props/c19"
